@@ -134,6 +134,9 @@ func (handler) HandleOperation(ctx context.Context, req kmip.OperationPayload) (
 			sc.nest(ctx)
 		}
 		return &payloads.GetResponsePayload{UniqueIdentifier: pl.UniqueIdentifier}, nil
+	case "successClearsId":
+		kmipserver.SetIdPlaceholder(ctx, "") // storing the empty placeholder is a store like any other
+		return &payloads.GetResponsePayload{UniqueIdentifier: pl.UniqueIdentifier}, nil
 	case "typedError":
 		return nil, kmipserver.ErrItemNotFound
 	case "plainError":
@@ -407,7 +410,7 @@ func nzr(a [][2]any) [][2]any {
 	return a
 }
 
-var allOutcomes = []string{"success", "successSetsId", "typedError", "plainError", "panic", "unrouted", "critical"}
+var allOutcomes = []string{"success", "successSetsId", "successClearsId", "typedError", "plainError", "panic", "unrouted", "critical"}
 var allOpts = []string{"unset", "Continue", "Stop", "Undo"}
 
 func randReq(r *rand.Rand, maxItems int, rejectPct int) Req {
@@ -428,6 +431,8 @@ func randReq(r *rand.Rand, maxItems int, rejectPct int) Req {
 		o := allOutcomes[r.Intn(len(allOutcomes))]
 		if r.Intn(3) == 0 {
 			o = "successSetsId"
+		} else if r.Intn(6) == 0 {
+			o = "successClearsId"
 		}
 		q.Items = append(q.Items, Item{Out: o, HasId: r.Intn(2) == 0})
 	}
